@@ -19,6 +19,52 @@ NOT_BUILT = ("check not built yet in this round (planned in DESIGN.md section 9)
 NOT_APPLICABLE = {}
 
 CLAIMED = {
+    "C02": {
+        "text": "spec/Wire.tla holds the documented request shape of every protocol (each definition cites its document) next "
+                "to a transcription of every canhandlerequest (incl. WAP's header slurp with read position and per-connection "
+                "cache); MC_C02_lines enumerates first lines as token sequences and structured HTTP/WAP/Spartan/TAB-field "
+                "families x {TLS, plaintext} x header blocks x protocol lists (shipped order imported from conf at check time, "
+                "permutations, all orders of all 3-subsets in thorough) and checks Total, TlsStrict, Ordered, ClaimsMatchShape, "
+                "Deterministic; MC_C02_sniff covers all 256 first bytes x {TLS context or not}. Every model case is run through "
+                "the real ProtocolMultiplexer.getProtocol (each class also alone, and again later in the process' life) and "
+                "the real BaseServer.wrap_socket on a socketpair; TraceC02 judges the recorded answers (oracle for Ordered is "
+                "the documented Shape; OrderedByClaims is the implementation against itself) and SniffExact / SniffPure.",
+        "note": "Trusted: TLC; gamma/alpha of harness/c02.py (three representative sets per character class); flat token "
+                "sequences bounded at 3 (quick) / 4 (thorough) tokens, deeper shapes through the structured families.",
+    },
+    "C05": {
+        "text": "spec/Links.tla models per protocol how an entry is rendered to a link target, which request a client sends for "
+                "it, which protocol claims it (order imported from conf) and what the server extracts (unquote, slash "
+                "normalisation, WAP strip, Gemini prompt/redirect, icon route, Virtual ?/| split), with the lemma "
+                "Unquote(Quote(s)) = s; MC_C05 enumerates content trees (file, dir, mbox, Maildir, ZIP, gophermap dir; names "
+                "over byte classes plus the reserved shapes) x protocol views x handler lists and checks Closure on the design. "
+                "Every tree is materialised and crawled from / on the real server with each protocol's own lexer and request "
+                "syntax; TLC re-derives every request from Follow and TraceC05 judges Closure / Closure_WrongKind.",
+        "note": "Trusted: TLC; crawler and lexers in harness/c05_lib.py; two directory levels; known findings for names the "
+                "front ends reserve by design (exactly 'wap', URL:-prefixed names, the HTTP icon route) and for Gopher selectors "
+                "of the shape 'a b 1' that SpartanProtocol claims.",
+    },
+    "C06": {
+        "text": "spec/Views.tla defines the protocol-independent view of a listing (Canon maps every link form to kind, host, "
+                "port, selector) and the search dialogue per protocol; MC_C06 enumerates link-file entries (local, remote, "
+                "port-only, URL:), search strings x search-item selectors, and trees, per advertised port. All 11 views (nine "
+                "protocol classes plus Gopher+ $) of every site are fetched from the real server with and without trailing "
+                "slash under abstract_headers x abstract_entries x port x handler list; an echo PYG handler reports the "
+                "search string received; TraceC06 judges SameObject, SameLinks, SameInfo, SameSearch against the Gopher "
+                "reference observations of the same site.",
+        "note": "Trusted: TLC; view lexers in harness/c06.py; pairwise equality checked as equality with the Gopher/Gopher+ "
+                "reference view. Known finding: a plain Gopher search string starting with + or $ is taken for the Gopher+ flag.",
+    },
+    "C18": {
+        "text": "The TAL modules of C17 with a history of computed writes (TALVM.dw); MC_C18 checks Escaped / AttrEscaped (every "
+                "value written as text or attribute value is free of markup characters), PythonGated, ContextRestored and "
+                "PassThrough / Idempotent over values with markup metacharacters and reference-shaped tokens, python: "
+                "expressions with a canary, and TAL-free documents from a document grammar. Every case runs on the real "
+                "simpleTAL (context snapshot before/after, canary, second expansion; python: also through handlers/tal.py on "
+                "the real server) and TraceC18 judges the tokenised output and snapshots.",
+        "note": "Trusted: TLC; HTML tokenizer and snapshot abstraction in harness/c17_tal.py; python: is opaque in the model. One "
+                "known finding (script/style content is entity-escaped: PassThrough/Idempotent fail for such documents).",
+    },
     "C03": {
         "text": "spec/Server.tla models the connection lifecycle with its exception flow (ReadLine, SelectProtocol outside the "
                 "try, handler steps, Write(k) with failing twins, CatchInProtocol, CatchInServer, log records) and "
